@@ -7,6 +7,7 @@ import (
 	"fmt"
 	"os"
 	"path/filepath"
+	"regexp"
 	"sort"
 	"strconv"
 	"strings"
@@ -407,8 +408,21 @@ func RunCheck(opts CheckOpts) *CheckReport {
 	}
 	// baseline obligations that no longer exist (contract removed / function gone)
 	var missing []string
+	// clause-level stems: post.3.g7.c2 -> post.3 (path-group / case numbering may change with harmless edits)
+	stem := func(n string) string {
+		return stemRe.ReplaceAllString(n, "")
+	}
+	seenStems := map[string]bool{}
+	for n := range seenNames {
+		seenStems[stem(n)] = true
+	}
+	reported := map[string]bool{}
 	for _, n := range base.Obligations {
 		if !seenNames[n] {
+			if seenStems[stem(n)] || reported[stem(n)] {
+				continue
+			}
+			reported[stem(n)] = true
 			short := n[strings.LastIndex(n, "#")+1:]
 			if strings.HasPrefix(short, "post.") || strings.HasPrefix(short, "fails.") || strings.HasPrefix(short, "lemma.") || strings.HasPrefix(short, "loop.") {
 				fnRejected := false
@@ -668,3 +682,5 @@ func preferSmall(o *Obligation, ans SolverAnswer, opts CheckOpts, work string) S
 	}
 	return ans
 }
+
+var stemRe = regexp.MustCompile(`(\.g\d+)?(\.c\d+)?$`)
